@@ -551,7 +551,7 @@ def pub_history_descs(rng, seqs, classes=("sym", "symsh", "herm", "gen", "genrs"
             resh = ",S,P" if cls in ("symsh", "genrs", "gencs", "gsi", "gbuck", "gcay") else ""
             kw["hist"] = "N,P," + obs + ",P" + resh + ",N" + ("," + seq if seq else "") + ",F0," + obs + ",P"
             if resh:
-                kw["resig"] = rng.choice(["0.21", "-0.77", "1.3", "-20", "0"])
+                kw["resig"] = rng.choice(["0.21", "-0.77", "1.3", "-20.37", "0.013"])   # never an eigenvalue of the integer / half-integer prescribed spectra
             kw.update(sv1=rng.choice(["rnd", "rnd2"]), sv2=rng.choice(["rnd", "rnd2"]), meas=0, mconv=0, ref=0)
             out.append(desc(**kw))
     return out
